@@ -243,8 +243,11 @@ func initCustoms() {
 			switch r.Intn(10) {
 			case 0, 1, 2:
 				rc.PostState, rc.Status = r.Bytes(32), 0
-			case 3: // not a value the decoder gives back
-				rc.PostState, rc.Status = r.Bytes(r.Intn(40)), uint64(r.Intn(3))
+			case 3, 4: // not a value the decoder gives back: post state of another length, status > 1
+				rc.PostState, rc.Status = r.Bytes(int(r.Pick([]uint64{1, 2, 31, 33, 34, 64, uint64(r.Intn(40))}))), uint64(r.Intn(3))
+				if r.Chance(25) {
+					rc.PostState, rc.Status = nil, 2+uint64(r.Intn(5))
+				}
 				curInvalid = true
 			default:
 				rc.PostState, rc.Status = nil, uint64(r.Intn(2))
